@@ -178,6 +178,7 @@ def c08(report):
                       tag="-churn", checks=("state", "shape"), sims=False, only=lambda c: c[1] is None)
     for job in churn:
         job["consts"]["MinFit"] = 2
+        job["query_after"] = {"fit"}          # what a query remembers must survive chains of arm changes
     ecf.defer(churn, by_clause("shape", "state.keys", "state.arms", "state.policy", "call.exception"))
     ecf.defer(ljobs, by_clause("shape", "state.keys", "state.arms", "state.policy", "call.exception"))
     ecf.flush(report)
@@ -200,6 +201,7 @@ def c09(report):
                       tag="-churn", checks=("argmax",), sims=False, only=lambda c: c[1] is None)
     for job in churn:
         job["consts"]["MinFit"] = 2
+        job["query_after"] = {"fit"}          # what a query remembers must survive chains of arm changes
     ecf.defer(churn, by_clause("argmax"))
     ecf.flush(report)
     _nontrivial_from_counts(report, "cf.queries")
@@ -543,6 +545,20 @@ def c02(report):
     report.nontrivial_rule = ("Lin.tla edges replayed on LinGreedy/LinUCB/LinTS; non-trivial = query edges whose expectations "
                               "were compared with the exact rational ridge solution and with numpy.linalg.solve")
     jobs = lin_jobs(report.tier, report.seed)
+    # arm churn on bandits that have predicted before: remove an arm and add the same label again (it moves to the end of the
+    # arm list), then ask for expectations - the representatives answer queries right after training and not in between
+    for d in (1, 2):
+        lam = [(1, 2), (4, 1)][(report.seed + d) % 2]
+        grid = dict(LIN_GRIDS[d])
+        grid["Ctx"] = set(sorted(grid["Ctx"])[-1:])
+        binds = [dict(reg=reg, alpha={"ridge": 0.0, "ucb": 1.25}[reg], labelmap=["int", "str"][(i + d) % 2], unit="1")
+                 for i, reg in enumerate(("ucb", "ridge"))]
+        consts = ecf.lin_consts(**dict(grid, Lambda=lam, Labels={"a", "b", "c"}, InitArms=["a", "b", "c"], Rewards={1}, MaxBatch=1,
+                                       MaxHist=1, MaxDepth=5 if report.tier == "quick" else 6,
+                                       Ops={"fit", "remove_arm", "add_arm", "predict_expectations"}))
+        consts["QuerySets"] = set(sorted(consts["QuerySets"], key=len)[:1])
+        jobs.append(dict(module="Lin", bindings=binds, invariants=ecf.LIN_INVARIANTS, properties=ecf.LIN_PROPERTIES,
+                         query_after={"fit", "partial_fit"}, name="lin-churn-d%d" % d, mode="bfs", consts=consts))
     ecf.run_jobs(report, jobs, by_clause("state.A", "state.Xty", "state.beta", "result.linear", "result.linalg",
                                          "result.manyrows", "shape.rows", "call.exception"))
     # beyond the exact model: many features, real-valued data, single-row online updates, nearly constant scaled columns
@@ -719,16 +735,20 @@ def _sim_common(report, want_c15, want_c16):
     lists = sim.LISTS
     k = 0
     contextual_lists = [l for l in lists if any(sim.base_name(n) not in sim.CONTEXT_FREE for n in l)]
-    for conf in confs:
-        picks = lists if thorough else [lists[(k + report.seed + j * 3) % len(lists)] for j in range(4)]
+    import random as _random
+    for index, conf in enumerate(confs):
+        # seeded draws, not index arithmetic: strides resonate with the order of the configurations and would pair each
+        # bandit list with the same batch size / split every time
+        rnd = _random.Random(report.seed * 7919 + index)
+        picks = lists if thorough else rnd.sample(lists, 4)
         if conf.get("scaled"):
             # the scaler only matters for contextual bandits; one list per configuration in the quick tier
-            picks = contextual_lists if thorough else [contextual_lists[(k + report.seed) % len(contextual_lists)]]
+            picks = contextual_lists if thorough else rnd.sample(contextual_lists, 1)
         for names in picks:
-            for is_quick in ((False, True) if (thorough or not conf.get("scaled")) else (bool(k % 2),)):
+            for is_quick in ((False, True) if (thorough or not conf.get("scaled")) else (rnd.random() < 0.5,)):
                 if len(names) and min(conf["n"] - conf["T"], conf["n"]) < 4 and any(n.startswith("knn") for n in names):
                     continue
-                sim.run_config(conf, names, report.seed + k, is_quick, findings, counters, records)
+                sim.run_config(conf, names, rnd.randrange(1, 10 ** 6), is_quick, findings, counters, records)
                 k += 1
     # test sizes that are not dyadic (0.8, 0.3, ...): the split size is not specified, the bookkeeping laws still are
     for j, (n, ts) in enumerate([(10, (4, 5)), (15, (4, 5)), (10, (9, 10)), (20, (11, 20)), (10, (3, 10)), (12, (7, 10))]):
@@ -764,6 +784,8 @@ def _sim_common(report, want_c15, want_c16):
     report.replayed += counters.get("bandit_runs", 0)
     for key, v in counters.items():
         report.count("sim." + key, v)
+    for key, v in sim.NB_CHECKED.items():
+        report.count("sim.nb_stats_recomputed." + key, v)
     report.evaluations = counters.get("bandit_runs", 0) + len(records)
     report.nontrivial = set(range(counters.get("bandit_runs", 0) if want_c15 else len(records)))
     report.samples += [{"engine": "Sim.tla script replayed through the public API", "config": c} for c in confs[3:5]]
